@@ -45,16 +45,11 @@ CONTAINER_BUILTINS = {"list", "sorted", "reversed", "tuple", "set", "frozenset",
 PURE_BUILTINS = {"isinstance", "len", "str", "int", "float", "bool", "hasattr", "type", "print", "range", "id", "repr",
                  "min", "max", "sum", "any", "all", "abs", "super", "issubclass", "callable", "hash", "next"}
 
-# reviewed exceptions: (function qualname, predicate on normalised statement) -> reason
-EXCEPTIONS = [
-    ("ast:Class._find_class", lambda s: s.startswith("self.imports["),
-     "memo of an unqualified-import lookup; its value is a function of the tree itself and does not change any later lookup"),
-]
-CONST_REASON = (
-    "tree-owned constant Symbols are placed in the instance tree (ConstantReferenceApplier) and normalised "
-    "idempotently (name rebuilt from the dictionary key, declaration modification applied once and cleared); "
-    "checked by experiment: flattening every class of every test model twice on one tree equals a fresh parse"
-)
+# Reviewed exceptions: NONE.  Two were listed until defect hunting showed that both "reviewed" writes are observable
+# (D29: constant Symbols renamed in place; D30: the star-import memo names the wrong package) — both were repaired in
+# /repo and every write to a tree-owned object is a violation again.
+EXCEPTIONS = []
+CONST_REASON = None
 
 
 def is_tree(ao: str) -> bool:
@@ -935,8 +930,6 @@ def analyse_flatten(ctx: Context, rule: str) -> Result:
             for fq, pred, why in EXCEPTIONS:
                 if s["fn"] == fq and pred(s["stmt"]):
                     reason = why
-            if reason is None and lab.startswith("T:CONST"):
-                reason = CONST_REASON
             (exempt if reason else open_).append((s, reason))
         if lab.startswith("T:LOOKUP:") or lab.startswith("T:CONST:"):
             src = lab.split(":", 2)[2]
